@@ -13,8 +13,8 @@ from ..core import Outcome, is_err, eao_call
 ID = "C17"
 LEVEL = "exploration"
 EXAMPLES = {"quick": 500, "thorough": 10000}
-RULE = ("Generated: LP portfolios with one mapping row per variable (contracts with spread / takes / time-varying "
-        "capacity, storages with efficiency, inflow and costs, market pairs; 1-2 nodes; 3-10 steps x freq x unit x "
+RULE = ("Generated: LP portfolios (contracts with spread / takes / time-varying capacity, storages with efficiency, "
+        "inflow and costs, transports in both directions with costs, multi-commodity contracts, market pairs; 1-2 nodes; 3-10 steps x freq x unit x "
         "zone; wacc), 1-3 price samples that share the present prices with the original prices and differ in the "
         "future (or, in 15%, coincide with them), present/future boundary at any inner step. Oracle SLP: (i) n = "
         "n_present + (S+1) n_future and every scenario block (x_present, x_future^s) is feasible for the "
@@ -25,8 +25,8 @@ RULE = ("Generated: LP portfolios with one mapping row per variable (contracts w
         "Robust target: x feasible, min_s val_s(x_rob) >= min_s val_s(x^k) for every single-scenario solution and "
         "<= min_k V_k. Non-trivial: scenarios differ and EV_k < V_SLP < mean V_s strictly for some k (SLP) / the "
         "robust solution differs in worst-case value from some single-scenario solution. Distinct = distinct spec hash.")
-ASSUMPTIONS = ["portfolios with one mapping row per variable (with several rows per variable make_slp renumbers the mapping by rows - "
-               "the value is right but extract_output fails; recorded as observation D19 outside the listed properties)",
+ASSUMPTIONS = ["only Results.x and Results.value of the SLP are used (with several rows per variable make_slp renumbers the mapping by "
+               "rows and extract_output fails - observation D19 outside the listed properties)",
                "scipy-HiGHS solves the per-scenario problems; tolerances 4e-5*(1+|V|)"]
 
 
@@ -40,8 +40,11 @@ def _strategy(draw):
     cx = gen.Cx(g, nodes, prices)
     assets = []
     for i in range(draw(st.integers(1, 3))):
-        cls = draw(st.sampled_from(["simple", "storage", "storage", "contract"]))
+        cls = draw(st.sampled_from(["simple", "storage", "storage", "contract", "transport", "transport", "multi"]))
         a = gen.draw_asset(draw, cx, cls, "a%d" % i)
+        if a["type"] in ("transport", "exttransport") and a.get("costs_time_series") is None and draw(st.booleans()):
+            a["costs_time_series"] = "p1"
+            a["costs_const"] = max(a["costs_const"], 0.25)
         if a["type"] == "storage":
             a["price"] = None
             a["nodes"] = a["nodes"][:1]
@@ -91,8 +94,9 @@ def check(spec):
         return out.drop("setup_error:" + r.op.kind)
     op = r.op
     n = len(op.c)
-    if op.mapping.index.duplicated().any() or len(set(op.mapping.index)) != n:
-        return out.drop("several_rows_per_variable")
+    if len(set(op.mapping.index)) != n:
+        return out.drop("unmapped_variables")
+    out.label("multi_row_variables" if op.mapping.index.duplicated().any() else None)
     raw0 = lpkit.from_op(op)
     scen_prices = [spec["prices"]] + list(spec["samples"])
     cs = []
@@ -112,8 +116,9 @@ def check(spec):
             return out.drop("scenario_" + st_)
         Vs.append(v_)
         xs.append(x_)
-    steps = op.mapping["time_step"].values.astype(int)
-    idx = op.mapping.index.values.astype(int)
+    m1 = op.mapping[~op.mapping.index.duplicated(keep="first")]
+    steps = m1["time_step"].values.astype(int)
+    idx = m1.index.values.astype(int)
     fut = np.zeros(n, bool)
     fut[idx] = steps >= k
     scale = raw0.scale()
